@@ -1003,7 +1003,7 @@ Definition sp_c17 (sp : spst) (x : step) (o : obs) : list viol :=
     | _ => []
     end
   else
-    (omap (fun q => if str_in q (sp_ever sp) then None else Some ("watchlist-user-only", q)) (ob_list o))
+    (omap (fun q => if str_in q (sp_ever sp) || str_in q (map clean (sp_ever sp)) then None else Some ("watchlist-user-only", q)) (ob_list o))
     ++ (match x with
         | SRemove p =>
             if ob_ok o then
@@ -1094,7 +1094,9 @@ Definition spec_step (sp : spst) (x : step) (o : obs) : spst * list viol :=
           let fs := sp_fs sp2 in
           let ents := if is_dir_path fs base && negb (bool_decide (is_Some (sp_self sp2 !! base))) then filter (fun ni : string * N => negb (bool_decide (is_Some (sp_known sp2 !! ni.1)))) (entries_of fs base) else [] in
           {| sp_fs := fs;
-             sp_user := if str_in p (sp_user sp2) then sp_user sp2 else (p :: sp_user sp2);
+             (* Add of a FIFO/socket returns nil without watching anything: it does not count as a live user watch *)
+             sp_user := if str_in p (sp_user sp2) || match ino_of fs base true with Some i => is_fifo (kind_of fs i) | None => false end
+                        then sp_user sp2 else (p :: sp_user sp2);
              sp_ever := if str_in p (sp_ever sp2) then sp_ever sp2 else (p :: sp_ever sp2);
              sp_known := fold_left (fun m (ni : string * N) => <[ ni.1 := ni.2 ]> m) ents (sp_known sp2);
              sp_pre := fold_left (fun m (ni : string * N) => {[ ni.1 ]} ∪ m) ents (sp_pre sp2);
